@@ -2,6 +2,7 @@
   C03 — nothing outside the loaded torrents' export subtrees is ever touched.
 -/
 import TB.Props.C12
+import TB.Props.C10
 namespace TB
 
 /-- every mutating operation (and every open for writing) of a run is confined: file operations go strictly
@@ -11,20 +12,67 @@ theorem C03_confined (H : Bytes → Bytes) (inp : RunIn) :
       ∃ t ∈ inp.torrents,
         if o.kind = .mkdirs then Path.isPrefixOf (inp.exportDir.path ++ [hex t.infoHash, sData]) o.path
         else Path.isProperPrefixOf (inp.exportDir.path ++ [hex t.infoHash, sData]) o.path := by
-  sorry
+  intro o ho hk
+  obtain ⟨e, he, _, hpath, _⟩ := C12_only_run H inp o ho hk
+  obtain ⟨t, ht, htgt⟩ := C12_run_table H inp e he
+  refine ⟨t, ht, ?_⟩
+  split
+  · rename_i hm
+    rw [if_pos hm] at hpath
+    rw [hpath]; exact htgt.prefix_dropLast
+  · rename_i hm
+    rw [if_neg hm] at hpath
+    rw [hpath]; exact htgt.properPrefix
 
 /-- everything else a run does to a path is read-only: stat, read-only open, seek, read -/
 theorem C03_readonly (H : Bytes → Bytes) (inp : RunIn) :
     ∀ o ∈ (run H inp).ops,
       (¬ ∃ t ∈ inp.torrents, Path.isPrefixOf (inp.exportDir.path ++ [hex t.infoHash, sData]) o.path) →
       o.kind = .stat ∨ o.kind = .openr ∨ o.kind = .read ∨ ∃ n, o.kind = .seek n := by
-  sorry
+  intro o ho hno
+  have hc := C03_confined H inp o ho
+  have hbad : (o.kind.mutating = true ∨ o.kind = .openrw) → False := by
+    intro hk
+    obtain ⟨t, ht, h⟩ := hc hk
+    refine hno ⟨t, ht, ?_⟩
+    split at h
+    · exact h
+    · obtain ⟨rest, _, hr⟩ := h
+      exact ⟨rest, hr⟩
+  cases hkind : o.kind with
+  | stat => exact Or.inl rfl
+  | openr => exact Or.inr (Or.inl rfl)
+  | read => exact Or.inr (Or.inr (Or.inl rfl))
+  | seek n => exact Or.inr (Or.inr (Or.inr ⟨n, rfl⟩))
+  | openrw => exact (hbad (Or.inr hkind)).elim
+  | openc => exact (hbad (Or.inl (by rw [hkind]; rfl))).elim
+  | mkdirs => exact (hbad (Or.inl (by rw [hkind]; rfl))).elim
+  | setlen n => exact (hbad (Or.inl (by rw [hkind]; rfl))).elim
+  | write off data => exact (hbad (Or.inl (by rw [hkind]; rfl))).elim
 
 /-- names a loadable torrent can declare are plain, so the image of a loaded torrent has exactly the
     components <export…>/<hex>/Data/<name>/<path…> — no component can be `..`, `.`, empty or contain `/` -/
 theorem C03_plain (H : Bytes → Bytes) (doc : Bytes) (t : Torrent) (h : load H doc = .ok t)
     (exportDir : Path) (e : TEntry) (he : IsTargetOf exportDir t e) :
     ∀ c ∈ e.fullTarget.drop (exportDir.length + 2), plainComponent c = true := by
-  sorry
+  obtain ⟨_, hname, _, _, hwf⟩ := C10_loaded_wf H doc t h
+  obtain ⟨_, ⟨l, _, _, _, _, _, htgt⟩ | ⟨fs, f, hfs, hidx, _, _, htgt⟩⟩ := he
+  · intro c hc
+    have hdrop : e.fullTarget.drop (exportDir.length + 2) = [t.info.name] := by
+      rw [htgt, List.drop_append]
+      simp
+    rw [hdrop, List.mem_singleton] at hc
+    rw [hc]; exact hname
+  · intro c hc
+    have hdrop : e.fullTarget.drop (exportDir.length + 2) = t.info.name :: f.path := by
+      rw [htgt, List.append_assoc, List.drop_append]
+      simp
+    rw [hdrop] at hc
+    rcases List.mem_cons.1 hc with rfl | hc
+    · exact hname
+    · rcases hwf with ⟨l, _, hnone, _⟩ | ⟨fs', _, hfs', _, hall, _⟩
+      · rw [hnone] at hfs; cases hfs
+      · rw [hfs] at hfs'; cases hfs'
+        exact ((hall f (List.mem_of_getElem? hidx)).2.2 c hc).2
 
 end TB
